@@ -98,6 +98,7 @@ def _index_guarded(fn: FuncInfo, n: ast.Subscript, pm: Dict[ast.AST, ast.AST]) -
     v, idx = norm(n.value), norm(n.slice)
     defs = _local_defs(fn)
     defs.pop(idx, None)  # the index itself stays symbolic
+    v_res = norm(_resolve(n.value, defs))  # the container by its definition, when it is a single-assignment local
 
     def truth_table(test: ast.AST) -> Optional[Dict[Tuple[int, int], bool]]:
         t = _resolve(test, defs)
@@ -108,7 +109,7 @@ def _index_guarded(fn: FuncInfo, n: ast.Subscript, pm: Dict[ast.AST, ast.AST]) -
                     s_ = norm(e)
                     if s_ == idx:
                         return i
-                    if s_ == "len(%s)" % v:
+                    if s_ in ("len(%s)" % v, "len(%s)" % v_res):
                         return ln
                     return NotImplemented
 
@@ -125,6 +126,16 @@ def _index_guarded(fn: FuncInfo, n: ast.Subscript, pm: Dict[ast.AST, ast.AST]) -
             tt = truth_table(par.test)
             if tt is not None and all((not val) or i < ln for (i, ln), val in tt.items()):
                 return True
+        if isinstance(par, ast.IfExp) and cur is par.body:
+            tt = truth_table(par.test)
+            if tt is not None and all((not val) or i < ln for (i, ln), val in tt.items()):
+                return True
+        if isinstance(par, ast.BoolOp) and isinstance(par.op, ast.And) and cur in par.values:
+            # `i < len(v) and v[i] ...`: the conjuncts to the left have been found true when this one is evaluated
+            for earlier in par.values[: par.values.index(cur)]:
+                tt = truth_table(earlier)
+                if tt is not None and all((not val) or i < ln for (i, ln), val in tt.items()):
+                    return True
         cur = par
     for st in walk_no_nested(fn.node):
         if isinstance(st, ast.If) and st.lineno < n.lineno and st.body and isinstance(st.body[-1], ast.Raise) and not st.orelse:
